@@ -190,6 +190,11 @@ def run(c, facts, tier):
     from .. import glue
 
     glue.obligations(c, facts, b, "C05")
+    from .. import report as _rep
+
+    _rep.require(c, facts, "c08", "C05.arg-lang", "-perm", "the permission argument denotes the documented value", lambda o: o["rule"] in ("C08.who-perm", "C08.algebra", "C08.fold", "C08.octal", "C08.prefix"), "the value carried by Test::Perm is decided by the C08 rules")
+    _rep.require(c, facts, "c14", "C05.arg-lang", "-printf/-fprintf", "the format argument is segmented as documented", lambda o: o["rule"] in ("C14.escapes", "C14.octal", "C14.other-backslash", "C14.directives", "C14.unknown", "C14.literals"), "the element list carried by the formatted print actions is decided by the C14 rules")
+    _rep.require(c, facts, "c07", "C05.arg-lang", "numeric arguments", "numbers are read exactly", lambda o: o["rule"] == "C07.convert", "the numbers carried by the numeric tests and options are decided by the C07.convert rules")
     tokfn = an.role("token")
     lexfn = an.role("lex")
     scope = b.scope(facts.fn(tokfn).module)
